@@ -10,7 +10,12 @@ COMPONENT = "cycles"
 WRAPPERS = [("%s", "%s"), ("%s?", "%s"), ("Sequence<%s>", "Q %s"), ("Sequence<%s?>", "Q %s"),
             ("Dictionary<int32, %s>", "D P %s"), ("Dictionary<%s, int32>", "D %s P"),
             ("Result<%s, int32>", "R %s P"), ("Result<bool, %s?>", "R P %s"),
-            ("Sequence<Dictionary<string, Result<bool, %s>>>", "Q D P R P %s")]
+            ("Sequence<Dictionary<string, Result<bool, %s>>>", "Q D P R P %s"),
+            ("%s?", "%s", True), ("Sequence<%s>?", "Q %s", True)]   # third component: the field carries a tag (tagged fields are optional)
+
+
+def fld(k, b, w):
+    return "%sf%d: %s" % ("tag(%d) " % k if len(WRAPPERS[w]) > 2 else "", k, WRAPPERS[w][0] % ("T%d" % b))
 
 
 def program(kinds, edges):
@@ -24,7 +29,7 @@ def program(kinds, edges):
     for i in range(n):
         flds = per[i]
         if kinds[i] == "S":
-            body = ", ".join("f%d: %s" % (k, WRAPPERS[w][0] % ("T%d" % b)) for k, (b, w) in enumerate(flds))
+            body = ", ".join(fld(k, b, w) for k, (b, w) in enumerate(flds))
             text.append("struct T%d { %s }" % (i, body))
             model.append("S " + " ".join("f %d %s" % (k, WRAPPERS[w][1] % ("N %d" % b)) for k, (b, w) in enumerate(flds)))
         else:
@@ -32,7 +37,7 @@ def program(kinds, edges):
             g0 = [(k, bw) for k, bw in enumerate(flds) if k % 2 == 0]
             g1 = [(k, bw) for k, bw in enumerate(flds) if k % 2 == 1]
             def en(name, g):
-                return name + ("(%s)" % ", ".join("f%d: %s" % (k, WRAPPERS[w][0] % ("T%d" % b)) for k, (b, w) in g) if g else "")
+                return name + ("(%s)" % ", ".join(fld(k, b, w) for k, (b, w) in g) if g else "")
             text.append("unchecked enum T%d { %s, %s }" % (i, en("A", g0), en("B", g1)))
             model.append("E " + " ".join("f %d %s" % (k, WRAPPERS[w][1] % ("N %d" % b)) for k, (b, w) in g0) + " | " +
                          " ".join("f %d %s" % (k, WRAPPERS[w][1] % ("N %d" % b)) for k, (b, w) in g1))
@@ -127,6 +132,29 @@ def run(ck):
             fam2 = "cycle-missed" if len(obs) < len(exp) else ("acyclic-flagged" if not exp else "report-differs")
             ck.violation("containment", fam2, text, repr(exp), repr(obs), detail=ml)
     ck.samples.append({"stream": "containment", "case": progs[-1][0], "model": m[-1], "impl": o[-1][:300]})
+
+    # 1f. the same reports when the program also has an unrelated defect that a later or neighbouring validation reports
+    DEFECTS = [("redefined-field", "struct X9 { x: int32, x: bool }\n"), ("redefined-type", "struct X9 { a: bool }\nstruct X9 { b: bool }\n"),
+               ("redefined-enumerator", "enum X9 : uint8 { A, A }\n"), ("tag-on-required", "struct X9 { tag(1) a: int32 }\n"),
+               ("empty-compact", "compact struct X9 {}\n"), ("empty-enum", "enum X9 : int8 {}\n"), ("duplicate-tag", "struct X9 { tag(1) a: int32?, tag(1) b: bool? }\n"),
+               ("stream-not-last", "interface X9 { op(a: stream int32, b: bool) }\n"), ("lint-only", "[deprecated] struct X8 {}\nstruct X9 { o: X8 }\n")]
+    cyc = [(t, mo) for (t, ml, fam), mo in zip(progs, m) if mo != "none"]
+    acy = [(t, mo) for (t, ml, fam), mo in zip(progs, m) if mo == "none"]
+    pick = rng.sample(cyc, min(len(cyc), 250 if ck.tier == "quick" else 3000)) + rng.sample(acy, min(len(acy), 60 if ck.tier == "quick" else 600))
+    dcases = [(t + d, mo, name) for (t, mo) in pick for name, d in (rng.sample(DEFECTS, 3) if ck.tier == "quick" else DEFECTS)]
+    o2 = core.run_impl("diags", ["diags - " + hx(t) for t, _, _ in dcases], chunk=500, timeout=120)
+    ck.stream("with-unrelated-defect", description="cyclic and acyclic containment programs of the stream above, each extended by one unrelated defective definition (redefined field/type/enumerator, tag on a required "
+              "field, empty compact struct, empty enum, duplicate tag, stream parameter not last, or only a lint); observable: the E032 list, which must be that of the program without the defect")
+    for (text, mo, name), oo in zip(dcases, o2):
+        ck.count("with-unrelated-defect", text, kind=name + (":cyclic" if mo != "none" else ":acyclic"))
+        dl = parse_diags(oo)
+        if dl is None:
+            ck.violation("with-unrelated-defect", "crash", text, mo, oo, signature={"observable": oo.split(" ")[0]})
+            continue
+        exp, obs = expected_reports(mo), observed_reports(dl)
+        if exp != obs:
+            ck.violation("with-unrelated-defect", "cycle-hidden-by-other-defect" if len(obs) < len(exp) else ("acyclic-flagged" if not exp else "report-differs"), text, repr(exp), repr(obs),
+                         signature={"defect": name})
 
     # 2. alias graphs: each alias is a primitive, another alias, or an anonymous type over aliases
     forms = [("int32", []), ] 
